@@ -7,7 +7,7 @@ dominator trees.  "X dominates Y" is decided as "on every explored path Y is pre
 X", which is robust against if<->switch, extracted helpers and reordered independent
 statements.
 """
-from ..interp import Obj, Sym, Arr, View
+from ..interp import Obj, Sym, Arr, View, NORETURN
 from ..build import AnalysisBroken
 from .. import lib_c14 as L
 
@@ -120,7 +120,9 @@ def run(P, rep, tier):
              ('R14.3/4', lambda: r143_r144(P, u, rep, cg, reach_main, facts)),
              ('R14.5', lambda: r145(P, u, rep, cg)),
              ('R14.6', lambda: r146(P, u, rep, cg, facts)),
-             ('R14.7', lambda: r147(P, rep, cg))]
+             ('R14.7', lambda: r147(P, rep, cg)),
+             ('R14.8', lambda: r148(P, u, rep, cg, facts)),
+             ('R14.9', lambda: r149(P, rep, cg, reach_main))]
     for name, f in steps:
         t0 = time.time()
         f()
@@ -277,6 +279,24 @@ def r142(P, u, rep, cg, facts):
                ('the exit handler does not return normally (%s)' % (out[1],)) if out[0] != 'ret' else
                'with 3 registered names the exit handler unlinks only %d of them (missing element index %s): those temporary files stay behind' % (3 - len(missing), missing),
                where=_where(u.fn(handler)), facts={'unlinked': [str(x) for x in un]})
+    # names enter the registry only in the temp creator (or a helper only it calls): a name pushed elsewhere did not come
+    # from mkstemp, so the exit handler would unlink a file this process does not own exclusively
+    creators = set(facts.get('tmp_fns', ()))
+    for (cu, caller, call) in cg.sites.get('strarray_push', ()):
+        a = call.args()
+        if not a:
+            continue
+        tgt = a[0].strip_all()
+        if tgt.kind == 'UnaryOperator' and tgt.opcode == '&' and tgt.inner:
+            tgt = tgt.inner[0].strip_all()
+        if not (tgt.kind == 'DeclRefExpr' and tgt.ref_kind == 'VarDecl' and tgt.ref_name == reg and cu.name == U and tgt.ref_id == u.globals[reg].id):
+            continue
+        callers = set(c for (_, c, _) in cg.sites.get(caller, ())) | set(c for (_, c, _) in cg.refs.get(caller, ()))
+        ok = caller in creators or (bool(callers) and callers <= creators)
+        rep.ob('R14.2', '%s:%s:%s' % (U, caller, 'registers-created-temporary' if ok else 'registers-name-not-from-temp-creator'), ok,
+               '%s pushes %s onto the cleanup registry `%s` although it is not the function that creates temporaries with mkstemp (%s): the exit handler will unlink a file '
+               'whose name was not made unique for this process - with a predictable name that is another invocation\'s file'
+               % (caller, a[1].src() if len(a) > 1 else '?', reg, ', '.join(sorted(creators)) or 'none found'), where=_where(call))
     # the registry is written only by strarray_push in the temp creator (nobody shrinks or resets it)
     for fname, fd in u.functions.items():
         for n in fd.walk():
@@ -750,3 +770,420 @@ def r147(P, rep, cg):
             else:
                 rep.ob('R14.7', '%s:%s:ends-through-%s' % (cu.name, fn, out[1]), False,
                        '%s ends the process through %s instead of exit(non-zero): atexit handlers (temp-file cleanup) do not run' % (fn, out[1]), where='%s:%d' % (cu.name, out[3]))
+
+
+# ================================================================== R14.8 ===
+# "on success exactly the requested outputs exist": the driver state after option parsing is fixed to a
+# concrete command line (option globals; every other static is zero, as C initialises it), file-name helpers
+# of main.c are interpreted over concrete strings (lib_c14 string model), and the file names handed to the
+# pipeline stages / opened for writing are compared with the names the command line asks for.  Nothing is
+# said about HOW main computes them: only stage calls and opens are observed.
+_C1, _C2, _A1 = 'sub.d/net.v4.c', 'net.v6.c', 'lib.x/start.v1.s'     # two dots, a dotted directory, equal prefix up to the first dot
+_OUT = 'bld.d/out.v2.bin'
+
+
+def _stem(path):
+    b = path.rstrip('/').rsplit('/', 1)[-1]
+    return b[:b.rfind('.')] if '.' in b else b
+
+
+def _zero_statics(u, over):
+    """file-scope variables without initialiser are zero (records: all-zero objects); `over` = the command line"""
+    glob = {}
+    for name, g in u.globals.items():
+        if 'init' in g.d or name in over:
+            continue
+        t = (g.dtype or g.type or '').replace('struct ', '').strip()
+        if t.endswith(']'):
+            continue
+        if t in u.records:
+            glob[name] = (lambda nm, tt: (lambda ctx: Obj(tt, lazy=False, label='g:' + nm)))(name, t)
+        else:
+            glob[name] = 0
+    glob.update(over)
+    return glob
+
+
+def _pure_string_fns(u, cg):
+    """functions of main.c that (transitively) call nothing but each other, modelled string functions and diagnostics"""
+    ok_ext = set(L.STRING_FNS) | set(L.ERROR_FNS) | {'strerror', '__errno_location'}
+
+    def pure(f, seen):
+        if f in ok_ext:
+            return True
+        if f not in u.functions:
+            return False
+        if f in seen:
+            return True
+        seen.add(f)
+        return all(pure(g, seen) for g in cg.edges.get(f, ()))
+    return set(f for f in u.functions if pure(f, set()))
+
+
+def _name_of(v):
+    """concrete file name denoted by v, else None"""
+    return L.cstr(v)
+
+
+def _strlist(names):
+    return lambda ctx: Obj('StringArray', lazy=False, label='g:input_paths',
+                           fields={'data': Arr([L.cbuf(x, 'argv') for x in names] + [0]), 'len': len(names), 'capacity': 8})
+
+
+def r148(P, u, rep, cg, facts):
+    rep.rule('R14.8', 'for a concrete command line (mode -E/-M/-S/-c/link, with and without -o, inputs whose base names contain several dots) every path of the driver '
+                      'that ends in success writes exactly the requested files: finals are named `-o` or <input base name with its LAST suffix replaced> in the current directory '
+                      '(a.out for a link), every file passed from one stage to the next is a create_tmpfile name of its own, stages read only command-line inputs or such temporaries; '
+                      'a cc1 process opens for writing exactly its output and the requested dependency file', floor=12)
+    need = ('opt_cc1', 'opt_o', 'opt_E', 'opt_M', 'opt_S', 'opt_c', 'input_paths')
+    if any(g not in u.globals for g in need):
+        rep.undecided('R14.8', '%s:main:option-globals' % U, 'option globals %s not all found' % '/'.join(need))
+        return
+    tmp_fns = sorted(facts.get('tmp_fns', ()))
+    pure = _pure_string_fns(u, cg)
+
+    def m_tmp(it, ctx, n, args):
+        s = Sym(ctx.fresh('tmp'), 'char *')
+        ctx.emit('call', 'create_tmpfile', args, n.line, s)
+        return s
+    models = dict(L.string_models())
+    models['strarray_push'] = _m_strarray_push
+    for t in tmp_fns:
+        models[t] = m_tmp
+    opaque = [f for f in u.functions if f != 'main' and f not in pure]
+    w = _where(u.fn('main'))
+    scenarios = [
+        ('E', 'E', 0, [_C1, _C2], []),
+        ('M', 'M', 0, [_C1], []),
+        ('S', 'S', 0, [_C1, _C2], [_stem(_C1) + '.s', _stem(_C2) + '.s']),
+        ('S+o', 'S', _OUT, [_C1], [_OUT]),
+        ('c', 'c', 0, [_C1, _C2, _A1], [_stem(_C1) + '.o', _stem(_C2) + '.o', _stem(_A1) + '.o']),
+        ('c+o', 'c', _OUT, [_C1], [_OUT]),
+        ('c+o-asm', 'c', _OUT, [_A1], [_OUT]),
+        ('link', '', 0, [_C1, _C2], ['a.out']),
+        ('link+o', '', _OUT, [_C1, _C2], [_OUT]),
+        ('link-asm', '', 0, [_C1, _A1], ['a.out']),
+    ]
+    for sc, mode, o, ins, expect in scenarios:
+        over = {'opt_cc1': 0, 'opt_o': o, 'input_paths': _strlist(ins)}
+        if mode:
+            over['opt_' + mode] = 1
+        key0 = '%s:main:%s' % (U, sc)
+        try:
+            it = L.make_interp(P, u, opaque=opaque, extra_models=models, globals_=_zero_statics(u, over), loop_limit=2)
+            ps = it.explore('main', lambda ctx: [Sym('argc', 'int'), Sym('argv', 'char **')], max_paths=2000)
+        except AnalysisBroken as e:
+            rep.undecided('R14.8', key0 + ':interpretation', str(e))
+            continue
+        nret = 0
+        for ctx, out in ps:
+            if out[0] != 'ret':
+                if out[1] != '__assert_fail':
+                    rep.undecided('R14.8', key0 + ':ends-in-%s' % out[1], 'the command line of scenario %s (inputs %s) ends in %s%r on some path: rejected legitimate command line or state the model left open'
+                                  % (sc, ins, out[1], tuple(a for a in out[2][:2] if isinstance(a, str))), where='%s:%d' % (U, out[3]))
+                continue
+            nret += 1
+            _check_pipeline_names(rep, key0, sc, ctx, ins, expect, w)
+        if nret == 0:
+            rep.undecided('R14.8', key0 + ':no-success-path', 'no path of main returns for scenario %s' % sc)
+    _r148_cc1(P, u, rep, cg)
+
+
+def _check_pipeline_names(rep, key0, sc, ctx, ins, expect, w):
+    evs = [e for e in L.calls_of(ctx) if e[1] in SUBPROC or e[1] == 'create_tmpfile']
+    tmps = [e[4] for e in evs if e[1] == 'create_tmpfile']
+
+    def ident(v):
+        """comparable identity of a file-name value: ('tmp', k) | ('name', str) | ('null',) | ('other', id)"""
+        for k, t in enumerate(tmps):
+            if v is t:
+                return ('tmp', k)
+        s = _name_of(v)
+        if s is not None:
+            return ('name', s)
+        if v is None or (isinstance(v, int) and v == 0):
+            return ('null',)
+        return ('other', id(v))
+    stages = []     # (stage, reads [(role, ident)], writes [(role, ident)], line)
+    for e in evs:
+        name, args = e[1], e[2]
+        if name == 'run_cc1' and len(args) >= 4:
+            stages.append(('cc1', [('cc1-input', ident(args[2]))], [('cc1-output', ident(args[3]))], e[3]))
+        elif name == 'assemble' and len(args) >= 2:
+            stages.append(('as', [('assembler-input', ident(args[0]))], [('assembler-output', ident(args[1]))], e[3]))
+        elif name == 'run_linker' and len(args) >= 2:
+            a0 = args[0]
+            pushed = a0.meta.get('pushed', []) if isinstance(a0, Obj) else None
+            if pushed is None:
+                rep.undecided('R14.8', key0 + ':linker-input-list', 'run_linker is not given a list object', where='%s:%d' % (U, e[3]))
+                pushed = []
+            stages.append(('ld', [('linker-input', ident(v)) for v in pushed], [('linker-output', ident(args[1]))], e[3]))
+    cmdline = set(ins)
+    written = {}
+    finals = []
+    for i, (st, reads, writes, line) in enumerate(stages):
+        wh = '%s:%d' % (U, line)
+        for role, idv in reads:
+            if idv[0] == 'tmp':
+                ok = idv in written
+                rep.ob('R14.8', key0 + (':%s-temporary-was-written' % role if ok else ':%s-is-unwritten-temporary' % role), ok,
+                       'scenario %s: the %s is a temporary no earlier stage has written' % (sc, role), where=wh)
+            elif idv[0] == 'name':
+                ok = idv[1] in cmdline
+                rep.ob('R14.8', key0 + (':%s-from-command-line' % role if ok else ':%s-is-derived-name' % role), ok,
+                       'scenario %s: the %s is %r, which is neither an input named on the command line (%s) nor a create_tmpfile name: a file this invocation does not own is read (another process may be writing it)'
+                       % (sc, role, idv[1], ', '.join(ins)), where=wh)
+            else:
+                rep.undecided('R14.8', key0 + ':%s-not-concrete' % role, 'scenario %s: the %s is not a concrete name' % (sc, role), where=wh)
+        for role, idv in writes:
+            consumed = any(idv == r[1] for (_, rs, _, _) in stages[i + 1:] for r in rs) and idv[0] != 'null'
+            if consumed:
+                ok = idv[0] == 'tmp'
+                rep.ob('R14.8', key0 + (':%s-passed-on-in-temporary' % role if ok else ':%s-passed-on-in-%s' % (role, 'computed-name' if idv[0] == 'name' else 'unknown-name')), ok,
+                       'scenario %s: the %s, which a later stage reads, is %s instead of a create_tmpfile (mkstemp) name: the name is predictable, so concurrent invocations '
+                       '(or two inputs with the same base name) overwrite and unlink each other\'s intermediate file'
+                       % (sc, role, repr(idv[1]) if idv[0] == 'name' else 'a value the analysis cannot name'), where=wh)
+                if ok:
+                    once = idv not in written
+                    rep.ob('R14.8', key0 + (':temporary-written-once' if once else ':temporary-written-twice'), once,
+                           'scenario %s: two stages write the same temporary' % sc, where=wh)
+            elif idv[0] == 'null':
+                pass            # standard output
+            elif idv[0] == 'name':
+                finals.append((idv[1], role, wh))
+            elif idv[0] == 'tmp':
+                rep.ob('R14.8', key0 + ':%s-left-in-temporary' % role, False,
+                       'scenario %s: the %s goes to a temporary that no later stage reads: the requested output is never produced' % (sc, role), where=wh)
+            else:
+                rep.undecided('R14.8', key0 + ':%s-not-concrete' % role, 'scenario %s: the %s is not a concrete name' % (sc, role), where=wh)
+            written[idv] = True
+    names = [f[0] for f in finals]
+    for nm, role, wh in finals:
+        if nm not in expect:
+            rep.ob('R14.8', key0 + ':unrequested-output-%s' % nm, False,
+                   'scenario %s (inputs %s): the %s is written to %r, which the command line does not ask for (requested: %s)' % (sc, ', '.join(ins), role, nm, ', '.join(expect) or 'standard output only'), where=wh)
+        if names.count(nm) > 1:
+            rep.ob('R14.8', key0 + ':output-%s-written-for-several-inputs' % nm, False,
+                   'scenario %s (inputs %s): %r is written by %d stage runs: the output of one input silently overwrites that of another' % (sc, ', '.join(ins), nm, names.count(nm)), where=wh)
+    for nm in expect:
+        ok = nm in names
+        rep.ob('R14.8', key0 + (':requested-outputs-written' if ok else ':requested-output-%s-missing' % nm), ok,
+               'scenario %s (inputs %s): the driver returns success without any stage writing the requested output %r (written instead: %s)' % (sc, ', '.join(ins), nm, ', '.join(names) or 'nothing'), where=w)
+    if not expect:
+        rep.ob('R14.8', key0 + (':no-file-output' if not names else ':files-written-in-stdout-mode'), not names, 'scenario %s writes files (%s) although only standard output is requested' % (sc, ', '.join(names)), where=w)
+
+
+def _r148_cc1(P, u, rep, cg):
+    need = ('base_file', 'output_file', 'opt_o', 'opt_E', 'opt_M', 'opt_MD', 'opt_MF')
+    if any(g not in u.globals for g in need):
+        rep.undecided('R14.8', '%s:cc1:option-globals' % U, 'globals %s not all found' % '/'.join(need))
+        return
+    terminators = set(L.HARD_EXIT) | set(L.SOFT_EXIT) | set(L.ERROR_FNS) | {'__assert_fail'}
+    file_fns = {'fopen', 'fopen64'} | set(PATH_CREATE) | set(TMP_CREATE)
+    creators = cg.reaches(file_fns)
+    pure = _pure_string_fns(u, cg)
+    opaque = [f for f in u.functions if f not in creators and f not in pure and f != 'cc1']
+    src, asm = 'sub.d/net.v4.c', 'tmp.d/cc1out.v3.s'
+    scenarios = [
+        ('compile', {}, [asm]),
+        ('E', {'opt_E': 1}, []),
+        ('E+o', {'opt_E': 1, 'opt_o': _OUT}, [_OUT]),
+        ('M', {'opt_M': 1}, []),
+        ('M+o', {'opt_M': 1, 'opt_o': _OUT}, [_OUT]),
+        ('M+MF', {'opt_M': 1, 'opt_MF': 'deps.v1.mk'}, ['deps.v1.mk']),
+        ('MD', {'opt_MD': 1}, [asm, _stem(src) + '.d']),
+        ('MD+o', {'opt_MD': 1, 'opt_o': 'out.v2.o'}, [asm, 'out.v2.d']),
+        ('MD+MF', {'opt_MD': 1, 'opt_MF': 'deps.v1.mk'}, [asm, 'deps.v1.mk']),
+    ]
+    w = _where(u.fn('cc1'))
+    for sc, opts, expect in scenarios:
+        key0 = '%s:cc1:%s' % (U, sc)
+        over = {'base_file': src, 'output_file': asm}
+        over.update(opts)
+        try:
+            it = L.make_interp(P, u, opaque=opaque, extra_models=L.string_models(), globals_=_zero_statics(u, over), loop_limit=1)
+            L.slice_loops(it, u, creators | terminators | file_fns)
+            ps = it.explore('cc1', lambda ctx: [], max_paths=5000)
+        except AnalysisBroken as e:
+            rep.undecided('R14.8', key0 + ':interpretation', str(e))
+            continue
+        nret = 0
+        for ctx, out in ps:
+            if out[0] != 'ret':
+                continue            # a diagnostic: R14.5 decides what may exist then
+            nret += 1
+            names = []
+            for e in L.calls_of(ctx):
+                name, args = e[1], e[2]
+                if not (name in ('fopen', 'fopen64') or name in PATH_CREATE):
+                    continue
+                mode = args[1] if len(args) > 1 else None
+                if name.startswith('fopen') and isinstance(mode, str) and not (mode[:1] in ('w', 'a') or '+' in mode):
+                    continue
+                nm = _name_of(args[0]) if args else None
+                if nm is None:
+                    rep.undecided('R14.8', key0 + ':opened-name-not-concrete', 'scenario cc1/%s: a file whose name is not concrete (%r) is opened for writing' % (sc, args[:1]), where='%s:%d' % (U, e[3]))
+                    continue
+                names.append(nm)
+                if nm not in expect:
+                    rep.ob('R14.8', key0 + ':unrequested-file-%s' % nm, False,
+                           'scenario cc1/%s (input %s, output %s, options %s): the file %r is created, which the command line does not ask for (requested: %s)'
+                           % (sc, src, asm, opts or '{}', nm, ', '.join(expect) or 'standard output only'), where='%s:%d' % (U, e[3]), facts={'path': _fmt_path(ctx)})
+            for nm in expect:
+                ok = nm in names
+                rep.ob('R14.8', key0 + (':requested-files-written' if ok else ':requested-file-%s-missing' % nm), ok,
+                       'scenario cc1/%s (input %s, output %s, options %s): cc1 returns without creating the requested file %r (created: %s)' % (sc, src, asm, opts or '{}', nm, ', '.join(names) or 'nothing'),
+                       where=w, facts={'path': _fmt_path(ctx)})
+            if not expect:
+                rep.ob('R14.8', key0 + (':no-file-output' if not names else ':files-written-in-stdout-mode'), not names,
+                       'scenario cc1/%s creates files (%s) although only standard output is requested' % (sc, ', '.join(names)), where=w)
+        if nret == 0:
+            rep.undecided('R14.8', key0 + ':no-success-path', 'no path of cc1 returns for scenario %s' % sc)
+
+
+# ================================================================== R14.9 ===
+# "unreadable input => diagnostic, non-zero exit": failure of opening an input must not be swallowed anywhere
+# on the way up the call chain.  Decided per function and per call site: the function is interpreted with
+# exactly that one call failing (returning its failure value); on every such path it must either end the
+# process with a non-zero status or hand a distinguishable failure value to ITS caller, whose call sites are
+# then examined the same way.
+def r149(P, rep, cg, reach_main):
+    rep.rule('R14.9', 'when opening an input file for reading fails, every function on the call chain either ends the process through a diagnostic (non-zero exit) '
+                      'or returns a failure value that none of its successful paths returns, and every caller of such a function does the same: '
+                      'the failure is never dropped (a translation unit compiled without a file it was told to read, exit 0)', floor=4)
+    terminators = set(L.HARD_EXIT) | set(L.SOFT_EXIT) | set(L.ERROR_FNS) | {'__assert_fail'}
+    alldefs = set(cg.defs)
+    # work items: (callee G, failure value c)
+    work = []
+    for name in ('fopen', 'fopen64'):
+        reads = False
+        for (cu, caller, call) in cg.sites.get(name, ()):
+            if caller not in reach_main:
+                continue
+            creates, decidable = _creates_file(call)
+            if decidable and not creates:
+                reads = True
+        if reads:
+            work.append((name, 0))
+    if not work:
+        rep.undecided('R14.9', 'tokenize.c:input-open', 'no reachable fopen(..., "r") found: the input-reading anchor vanished')
+        return
+    done = set()
+    n_fatal = 0
+    while work:
+        G, c = work.pop(0)
+        if G in done:
+            continue
+        done.add(G)
+        if G in cg.refs and any(f in reach_main for (_, f, _) in cg.refs[G]):
+            rep.undecided('R14.9', '%s:%s:address-taken' % (cg.refs[G][0][0].name, G), 'the address of %s, which reports input-open failures by its return value, is taken: indirect callers are not followed' % G)
+        for (cu, H, call) in cg.sites.get(G, ()):
+            if H not in reach_main:
+                continue
+            if G in ('fopen', 'fopen64'):
+                creates, decidable = _creates_file(call)
+                if creates or not decidable:
+                    continue        # output side: R14.1 / R14.5
+            verdict, info = _open_failure_outcome(P, cg, cu, H, G, call, c, alldefs, terminators)
+            key = '%s:%s:%s-failure' % (cu.name, H, G)
+            wh = _where(call, cu.name)
+            if verdict == 'undecided':
+                rep.undecided('R14.9', key, info, where=wh)
+            elif verdict == 'fatal':
+                n_fatal += 1
+                rep.ob('R14.9', key + '-is-fatal', True, '', where=wh)
+            elif verdict == 'reported':
+                rep.ob('R14.9', key + '-reported-to-caller', True, '', where=wh, facts={'failure value': repr(info)})
+                work.append((H, info))
+                if H in ('main', 'cc1'):
+                    rep.ob('R14.9', key + '-returned-from-%s' % H, False, 'the failure is returned from %s, the top of the process: nobody is left to diagnose it' % H, where=wh)
+            else:
+                rep.ob('R14.9', key + '-dropped', False,
+                       'when %s(%s) fails%s, %s carries on on a path that neither ends in a diagnostic nor returns a value its caller could tell from success (%s): '
+                       'the unreadable input is silently left out, compilation continues and can end with exit status 0 and an output file'
+                       % (G, ', '.join(a.src() for a in call.args()[:1]), ' (returns %r)' % (c,) if G not in ('fopen', 'fopen64') else '', H, info),
+                       where=wh)
+    if n_fatal == 0:
+        rep.undecided('R14.9', 'tokenize.c:input-open:no-fatal-handler', 'no call chain from an input open ends in a diagnostic')
+
+
+class _Fail(int):
+    """the failure value of the one failing call: behaves as the integer, keeps its identity while it is stored and passed on"""
+    pass
+
+
+def _open_failure_outcome(P, cg, cu, H, G, site, c, alldefs, terminators):
+    """interpret H with the call `site` of G failing (value c), every other call of G succeeding; other functions are
+    opaque, except that a function of the same unit that is handed the failure value itself is interpreted (the test
+    may live in a helper).
+    -> ('fatal', None) | ('reported', value) | ('dropped', description) | ('undecided', why)"""
+    mark = _Fail(c)
+
+    def m(it, ctx, n, args):
+        st = L.proc_state(ctx)
+        if n.id == site.id:
+            st['open_failed'] = True
+            ctx.note('%s fails' % G)
+            ctx.emit('call', G, args, n.line, c)
+            return mark
+        r = Obj(None, lazy=True, label=ctx.fresh(G))
+        ctx.emit('call', G, args, n.line, r)
+        return r
+
+    def helper(F):
+        def mh(it, ctx, n, args):
+            if any(a is mark for a in args) and ctx.rec.get(F, 0) == 0:
+                return it.call_fn(cu, cu.functions[F], args)
+            return L._opaque_call(it, ctx, n, args)
+        return mh
+    opaque = [f for f in alldefs if f != H]
+    models = {}
+    for F in cu.functions:
+        if F != H and F != G and F not in terminators and F not in NORETURN:
+            models[F] = helper(F)
+    models[G] = m
+    glob = {}
+    for name, g in cu.globals.items():       # file-scope records (option lists ...) hold anything
+        t = (g.dtype or g.type or '').replace('struct ', '').strip()
+        if t in cu.records and 'init' not in g.d:
+            glob[name] = (lambda nm, tt: (lambda ctx: Obj(tt, lazy=True, label='g:' + nm)))(name, t)
+    for name in ('stdin', 'stdout', 'stderr'):       # the standard streams exist
+        glob[name] = (lambda nm: (lambda ctx: Obj(None, lazy=True, label='g:' + nm)))(name)
+    try:
+        it = L.make_interp(P, cu, opaque=opaque, extra_models=models, globals_=glob, loop_limit=1)
+        L.slice_loops(it, cu, terminators | {G})
+        paths = it.explore(H, lambda ctx: [], max_paths=4000)
+    except AnalysisBroken as e:
+        return 'undecided', 'interpretation of %s failed: %s' % (H, e)
+    failed = [(ctx, out) for ctx, out in paths if L.proc_state(ctx).get('open_failed')]
+    good = [(ctx, out) for ctx, out in paths if not L.proc_state(ctx).get('open_failed')]
+    if not failed:
+        return 'undecided', 'no explored path of %s reaches the call of %s' % (H, G)
+    rets = []
+    for ctx, out in failed:
+        if out[0] == 'noreturn':
+            if not _nonzero_exit(out):
+                return 'dropped', 'ends through %s%r, not a certain non-zero status' % (out[1], tuple(out[2][:1]))
+            continue
+        rets.append((ctx, out[1]))
+    if not rets:
+        return 'fatal', None
+    vals = set()
+    for ctx, v in rets:
+        if isinstance(v, bool):
+            v = int(v)
+        if not isinstance(v, int):
+            return 'dropped', 'returns %s; path: %s' % ('nothing' if v is None else 'a value that is not a failure constant', ' / '.join(_fmt_path(ctx, 4)))
+        vals.add(v)
+    if len(vals) != 1:
+        return 'dropped', 'returns different constants %s on failure' % sorted(vals)
+    fv = vals.pop()
+    for ctx, out in good:
+        if out[0] == 'ret':
+            v = out[1]
+            v = int(v) if isinstance(v, bool) else v
+            if isinstance(v, int) and v == fv:
+                return 'undecided', '%s returns %r when %s fails, and also on a path without failure: cannot tell whether its callers can recognise the failure' % (H, fv, G)
+            if isinstance(v, View):
+                return 'undecided', 'the successful return value of %s may or may not equal its failure value %r' % (H, fv)
+    return 'reported', fv
